@@ -5,23 +5,31 @@ import behave
 
 MANIFEST = {
     "id": "C14",
-    "text": "Coq: the stringifier's escaping functions are part of the Escape model (exhaustively tied, C12) with theorems that a "
-            "re-printed static text never contains `{{`, `<` or a raw quote (so it is read back as static text) and that the "
-            "printed string literal decodes to the same string. Decision of the property itself: for generated well-formed, "
-            "hand-written and mutated templates, print -> parse must raise nothing above Note, print is a fixpoint after one round "
-            "(with and without mangling), and the re-parsed template must create and update identically to the original under node.",
-    "note": "Partial: there is no Coq model of the tag-level printer or of the expression parser; the round trip is established by "
-            "execution only. Known finding KF-C14-1: with mangling, wx:for bodies refer to _$n but the printed tag declares no "
-            "wx:for-item / wx:for-index (pinned by the for_scope tests), so mangled prints of templates with wx:for are excluded "
-            "from the behavioural comparison.",
-    "technique": "Coq proof (escaping lemmas) + print/parse/print execution + behavioural comparison under node",
+    "text": "Coq: (1) the expression printer of the stringifier (Model/StrExpr.v) and the character-level expression / binding / value "
+            "parser (Model/ExprParse.v) are both modelled and tied to the code by correspondence (printer: every generated expression; "
+            "parser: 24k / 240k generated and mutated text and attribute values per run, AST compared); the theorem "
+            "C14_expression_print_parse_roundtrip proves, for every well-formed expression of any size and nesting (identifiers, i64 and "
+            "string literals, object / array literals, member / index / call chains, all unary, binary and conditional operators), that "
+            "parsing the printed text yields exactly that expression and stops exactly at the end of the binding (parenthesisation, "
+            "operator spacing, `?.` / `--` / `++` avoidance, literal escapes are all covered by it). (2) escaping theorems: a re-printed "
+            "static text never contains `{{`, `<` or a raw quote and decodes to itself under the real entity scanner. Decision of the "
+            "property itself on the code: for generated well-formed, hand-written and mutated templates, print -> parse must raise "
+            "nothing above Note, print is a fixpoint after one round (with and without mangling), and the re-parsed template must "
+            "create and update identically to the original under node.",
+    "note": "Partial: float literals and scope references are outside the round-trip theorem (floats are opaque text in the model); "
+            "there is no Coq model of the tag-level printer, whose round trip is established by execution only. Known finding "
+            "KF-C14-1: with mangling, wx:for bodies refer to _$n but the printed tag declares no wx:for-item / wx:for-index (pinned by "
+            "the for_scope tests), so mangled prints of templates with wx:for are excluded from the behavioural comparison.",
+    "technique": "Coq proof (print/parse round trip of expressions by structural induction; escaping lemmas) + model/implementation "
+                 "correspondence of printer and parser + print/parse/print execution + behavioural comparison under node",
     "jsrt": True,
 }
 
 THEOREMS = ["C14_static_text_roundtrip", "C14_static_text_no_binding_start", "C14_static_text_no_special",
             "C14_legacy_static_text_becomes_binding", "C14_string_literal_roundtrip",
             "C14_printer_tables_ok", "C14_printer_paren_decision", "C14_text_piece_then_binding",
-            "C14_static_text_roundtrip_real_scanner", "C14_expression_string_literal_roundtrip"]
+            "C14_static_text_roundtrip_real_scanner", "C14_expression_string_literal_roundtrip",
+            "C14_expression_print_parse_roundtrip", "C14_expression_roundtrip_any_tail", "C14_integer_literal_roundtrip"]
 
 
 def _norm_nodes(nodes):
